@@ -142,9 +142,23 @@ func (fr *Frame) execBlock(n *vnode) *exitPoint {
 		case *ssa.Store:
 			fr.store(n, i)
 		case *ssa.MapUpdate:
-			x.eng.Note("map updates are not modelled (map contents havocked) in " + fr.fn.String())
 			m := fr.term(i.Map, n)
 			x.vc.Oblige("safety.nilmap", "", n.reach, Neq(m, IntLit(0)), x.pos(i.Pos()), "assignment to entry in nil map")
+			if vc, pc, ks, vs, ok := x.mapComps(i.Map.Type()); ok {
+				kv, vv := fr.val(i.Key, n), fr.val(i.Value, n)
+				if kv.T != nil && vv.T != nil && kv.T.S == ks && vv.T.S == vs {
+					fr.frameCheck(n, &Place{Comp: vc, Elem: vs, Ref: m, Idx: IntLit(0)}, i.Pos())
+					vals := x.comp(n.heap, vc, SArray(SInt, SArray(ks, vs)))
+					pres := x.comp(n.heap, pc, SArray(SInt, SArray(ks, SBool)))
+					n.heap[vc] = Store(vals, m, Store(Select(vals, m), kv.T, vv.T))
+					n.heap[pc] = Store(pres, m, Store(Select(pres, m), kv.T, True))
+					break
+				}
+				// unmodelled value: forget the contents of all maps of this type
+				n.heap[vc] = x.eng.FreshVar(vc, SArray(SInt, SArray(ks, vs)))
+				n.heap[pc] = x.eng.FreshVar(pc, SArray(SInt, SArray(ks, SBool)))
+			}
+			x.eng.Note("map updates on maps with non-basic keys are not modelled (lookups return arbitrary values) in " + fr.fn.String())
 		case *ssa.Defer, *ssa.Go, *ssa.Select, *ssa.Send:
 			bail("instruction %T in %s", in, fr.fn)
 		case ssa.Value:
@@ -347,7 +361,16 @@ func (fr *Frame) evalValue(n *vnode, v ssa.Value) *Val {
 			x.eng.DeclareUF("strAt", SBV(8), SStr, SInt)
 			return &Val{T: App("strAt", SBV(8), a.T, idx), Ty: i.Type()}
 		}
-		x.eng.Note("map lookups return arbitrary values in " + fr.fn.String())
+		if vc, pc, ks, vs, ok := x.mapComps(i.X.Type()); ok {
+			if kv := fr.val(i.Index, n); kv.T != nil && kv.T.S == ks {
+				val, present := x.mapLookup(n.heap, vc, pc, ks, vs, a.T, kv.T, i.X.Type().Underlying().(*types.Map).Elem())
+				if i.CommaOk {
+					return &Val{Tup: []*Val{{T: val, Ty: i.X.Type().Underlying().(*types.Map).Elem()}, {T: present, Ty: types.Typ[types.Bool]}}, Ty: i.Type()}
+				}
+				return &Val{T: val, Ty: i.Type()}
+			}
+		}
+		x.eng.Note("map lookups with non-basic keys return arbitrary values in " + fr.fn.String())
 		return x.freshVal("lookup", i.Type())
 	case *ssa.Range:
 		// iteration over a map or string: an opaque iterator; Next yields arbitrary entries
@@ -709,10 +732,7 @@ func (fr *Frame) binop(n *vnode, i *ssa.BinOp, av, bv *Val) *Term {
 		}
 	}
 	if a.S == SStr && op == token.ADD {
-		x.eng.DeclareUF("strcat", SStr, SStr, SStr)
-		r := App("strcat", SStr, a, b)
-		x.vc.Assume(Eq(x.strLen(r), Add(x.strLen(a), x.strLen(b))))
-		return r
+		return x.strCat(a, b)
 	}
 	bail("operator %s on sort %s in %s", op, a.S, fr.fn)
 	return nil
@@ -1191,4 +1211,60 @@ func shortFn(f *ssa.Function) string {
 	s := f.String()
 	s = strings.ReplaceAll(s, "github.com/wader/fq/", "")
 	return s
+}
+
+// Maps with basic-typed keys: two heap components per (key sort, value sort),
+// MPV$k$v[map][key] = value and MPP$k$v[map][key] = present.  The nil map has no entries.
+func (x *Exec) mapComps(t types.Type) (vc, pc string, ks, vs *Sort, ok bool) {
+	mt, isMap := t.Underlying().(*types.Map)
+	if !isMap {
+		return
+	}
+	if _, basic := mt.Key().Underlying().(*types.Basic); !basic {
+		return
+	}
+	defer func() {
+		if recover() != nil {
+			ok = false
+		}
+	}()
+	ks, vs = x.eng.SortOf(mt.Key()), x.eng.SortOf(mt.Elem())
+	if ks == nil || vs == nil || ks.K == KFP {
+		return
+	}
+	x.zeroOf(mt.Elem())
+	return "MPV$" + ks.Short() + "$" + vs.Short(), "MPP$" + ks.Short() + "$" + vs.Short(), ks, vs, true
+}
+
+func (x *Exec) mapLookup(heap map[string]*Term, vc, pc string, ks, vs *Sort, m, key *Term, elem types.Type) (val, present *Term) {
+	vals := x.comp(heap, vc, SArray(SInt, SArray(ks, vs)))
+	pres := x.comp(heap, pc, SArray(SInt, SArray(ks, SBool)))
+	present = And(Neq(m, IntLit(0)), Select(Select(pres, m), key))
+	val = Ite(present, Select(Select(vals, m), key), x.zeroOf(elem))
+	return
+}
+
+// strCat: string concatenation as an uninterpreted function, kept in a canonical left-nested
+// form (so that regrouping a + (b + c) does not change the term) with the length law assumed.
+func (x *Exec) strCat(a, b *Term) *Term {
+	x.eng.DeclareUF("strcat", SStr, SStr, SStr)
+	var leaves []*Term
+	var walk func(t *Term)
+	walk = func(t *Term) {
+		if t.Op == "strcat" && len(t.Args) == 2 {
+			walk(t.Args[0])
+			walk(t.Args[1])
+			return
+		}
+		leaves = append(leaves, t)
+	}
+	walk(a)
+	walk(b)
+	r := leaves[0]
+	for _, l := range leaves[1:] {
+		n := App("strcat", SStr, r, l)
+		x.vc.Assume(Eq(x.strLen(n), Add(x.strLen(r), x.strLen(l))))
+		r = n
+	}
+	return r
 }
